@@ -463,7 +463,7 @@ func init() {
 				name := na[:i]
 				arity, _ := strconv.Atoi(na[i+1:])
 				switch name {
-				case "input", "inputs", "debug", "stderr", "input_line_number", "halt", "halt_error", "now", "localtime", "strflocaltime", "builtins", "modulemeta", "env", "$__loc__", "error", "repeat", "range", "limit", "until", "while", "recurse", "combinations", "getpath", "splits", "ltrimstr", "input_filename", "jn", "yn", "significand", "gamma", "lgamma", "tgamma", "lgamma_r", "frexp", "modf", "ldexp", "scalb", "scalbln", "nearbyint", "logb", "drem", "erf", "erfc", "j0", "j1", "y0", "y1", "fma", "nexttoward", "nextafter", "remainder":
+				case "input", "inputs", "debug", "stderr", "input_line_number", "halt", "halt_error", "now", "localtime", "strflocaltime", "builtins", "modulemeta", "env", "$__loc__", "error", "repeat", "range", "limit", "until", "while", "recurse", "combinations", "getpath", "splits", "ltrimstr", "input_filename", "jn", "yn", "significand", "lgamma_r", "frexp", "modf", "ldexp", "scalb", "scalbln", "nearbyint", "logb", "drem", "erf", "erfc", "j0", "j1", "y0", "y1", "fma", "nexttoward", "nextafter", "remainder":
 					if name != "range" && name != "limit" && name != "getpath" && name != "ltrimstr" && name != "error" && name != "combinations" {
 						continue
 					}
